@@ -33,6 +33,12 @@ type C20Scn struct {
 	// IndexHome: loaded instances live inside an index.SlimIndex (loads through
 	// si.Unmarshal when the entry says "index", index reads through that object)
 	IndexHome bool `json:"instance_lives_in_slimindex,omitempty"`
+	// Segments (load): the caller's buffer is a segment file, two streams back to
+	// back; Unmarshal is handed the whole buffer (it reads its own stream and
+	// ignores what follows). After the buffer was recycled, the region behind the
+	// first stream - by then holding another valid stream - is loaded into a
+	// second instance.
+	Segments bool `json:"segment_file,omitempty"`
 }
 
 func genC20(r *Rng, tier string) *C20Scn {
@@ -106,6 +112,7 @@ func genC20(r *Rng, tier string) *C20Scn {
 		c.Readers = append(c.Readers, ts)
 	}
 	c.IndexHome = r.Chance(0.25)
+	c.Segments = c.Kind == "load" && r.Chance(0.25)
 	return c
 }
 
@@ -661,7 +668,13 @@ func executeC20(scn *Scenario) *RunResult {
 
 		switch c.Kind {
 		case "load":
-			pb := newPoolBuf(stream, 64)
+			content, spare := stream, 64
+			if c.Segments {
+				content = append(append([]byte{}, stream...), other...)
+				spare += len(stream)
+				res.Counters["fault.second_stream_behind_the_loaded_one"]++
+			}
+			pb := newPoolBuf(content, spare)
 			st := mkInst()
 			var lerr error
 			var lpan string
@@ -689,6 +702,31 @@ func executeC20(scn *Scenario) *RunResult {
 					}
 					if b, _ := safeMarshal(st); viol == nil && !bytes.Equal(b, refBytes) {
 						fail("answers-changed-after-input-overwritten", "Marshal-post-scribble", fmt.Sprintf("load %s: after the input buffer was overwritten (%s), Marshal() differs from the twin's", c.id(), c.Pattern), digest(refBytes), digest(b), sim.steps)
+					}
+					if c.Segments && viol == nil {
+						// the recycled region behind the first stream now holds a copy
+						// of the FIRST stream: whoever loads it must get what the twin
+						// got from a private copy of the same bytes
+						region := pb.Buf[len(stream):cap(pb.Buf)]
+						if len(region) >= len(stream) {
+							copy(region, stream)
+							second := mkInst()
+							var e2 error
+							var p2 string
+							withStepCap(60_000_000, func() { e2, p2 = loadVia(second, c.Entry, region[:len(stream)]) })
+							res.Counters["fault.recycled_region_loaded_into_second_instance"]++
+							if e2 != nil || p2 != "" {
+								fail("answers-changed-after-input-overwritten", "second-load-from-recycled-region", fmt.Sprintf("load %s: the buffer held a second stream behind the loaded one; after it was recycled a valid stream placed there does not load: err=%v panic=%s", c.id(), e2, p2), "", "", sim.steps)
+							} else {
+								post2, _ := soloRefs(second, c.Readers)
+								for k, r := range refs {
+									if post2[k].out != r.out {
+										fail("answers-changed-after-input-overwritten", "second-load-from-recycled-region", fmt.Sprintf("load %s: the buffer held a second stream behind the loaded one; after it was recycled, an instance loaded from the stream now stored there answers %s differently from a twin loaded from a private copy of the same bytes (the library kept something of the old region)", c.id(), clip(k, 60)), r.out, post2[k].out, sim.steps)
+										break
+									}
+								}
+							}
+						}
 					}
 				}
 			}
